@@ -25,12 +25,21 @@ def sq(x0, y0, x1, y1):
     return ((x0, y0), (x1, y0), (x1, y1), (x0, y1), (x0, y0))
 
 
+def tri(a, b, c):
+    return (a, b, c, a)
+
+
 RIGHT_POOLS = {
-    "polygon": [(sq(0, 0, 4, 4),), (sq(0, 0, 2, 2),), (sq(20, 20, 22, 22),), (sq(0, 0, 8, 8), sq(4, 4, 6, 6)[::-1])],
+    # T1 / T2 split the square (0,0)-(6,6) along x+y=6: different shapes with the SAME bounding box
+    "polygon": [(sq(0, 0, 4, 4),), (tri((0, 0), (6, 0), (0, 6)),), (tri((6, 0), (6, 6), (0, 6)),), (sq(20, 20, 22, 22),),
+                (sq(0, 0, 8, 8), sq(4, 4, 6, 6)[::-1])],
     "multipolygon": [((sq(0, 0, 2, 2),), (sq(4, 4, 6, 6),)), ((sq(0, 0, 8, 8), sq(4, 4, 6, 6)[::-1]),), ((sq(20, 20, 22, 22),),)],
-    "line": [((4, 4), (6, 6)), ((0, 2), (2, 0)), ((20, 0), (21, 0)), ((3, 0), (3, 2), (3, 2))],
+    # the first two lines share the bounding box (4,4)-(6,6)
+    "line": [((4, 4), (6, 6)), ((4, 6), (6, 6), (6, 4)), ((0, 2), (2, 0)), ((20, 0), (21, 0)), ((3, 0), (3, 2), (3, 2))],
     "multiline": [(((4, 4), (6, 6)), ((0, 2), (2, 0))), (((8, 8), (10, 10)),)],
-    "multipoint": [((5, 5), (9, 0)), ((1, 1),), ((7, 7), (9, 9), (3, 1))],
+    # ((1,9),(9,1)) contains neither (1,1) nor (9,9) although x and y each occur in some member;
+    # the first two multipoints share the bounding box
+    "multipoint": [((5, 5), (9, 0)), ((5, 0), (9, 5)), ((1, 1),), ((1, 9), (9, 1)), ((7, 7), (9, 9), (3, 1))],
     "point": [(1, 1), (9, 9), (0, 0)],
 }
 LEFT_INDEX_STYLES = ("default", "nonunique", "named", "multi")
@@ -209,7 +218,7 @@ def plan(ctx):
     lseqs = [()]
     for n in (1, 2, 3):
         for s in itertools.product(range(len(LEFT_POOL)), repeat=n):
-            if n == 3 and not T and not ((s[0] < s[1] < s[2]) or (s[0] == s[2] and s[0] != s[1])):
+            if n == 3 and not T and not ((s[0] < s[1] < s[2]) or (len(set(s)) == 2)):
                 continue
             lseqs.append(s)
     units = []
@@ -233,6 +242,7 @@ def run(ctx):
             pass
     units = plan(ctx)
     seed = ctx.seed
+    thorough = ctx.thorough
 
     def work(col, ui):
         kind, lseqs, rseqs = units[ui]
@@ -243,6 +253,8 @@ def run(ctx):
             for ri, rs in enumerate(rseqs):
                 rrows = [pool[k] for k in rs]
                 for hi, how in enumerate(HOWS):
+                    if len(ls) == 3 and not thorough and (li + ri) % 3 != hi:
+                        continue          # triples: one rotating join type per (left, right) pair in quick
                     n += 1
                     k = n + seed + ui
                     lstyle = LEFT_INDEX_STYLES[(li + ri + hi + seed) % 4]
